@@ -315,8 +315,32 @@ def _work(item):
     return run_sequence(ops, real_crash=real)
 
 
+def check_trusted_base(ctx):
+    """C08 trusts SQLite's atomic commit.  That trust is only warranted while the journal file is opened with a
+    persistent rollback journal (or WAL) - verify the assumption on a real file-backed Journaler."""
+    from asyncfix import Journaler
+
+    d = tempfile.mkdtemp(prefix="vf8_")
+    try:
+        j = Journaler(os.path.join(d, "t.db"))
+        j.create_or_load("T", "S")
+        mode = str(j.conn.execute("PRAGMA journal_mode").fetchone()[0]).lower()
+        iso = getattr(j.conn, "isolation_level", "")
+        del j
+    finally:
+        shutil.rmtree(d, ignore_errors=True)
+    if mode not in ("delete", "truncate", "persist", "wal"):
+        ctx.violation(f"atomic_commit_not_durable|journal_mode:{mode}",
+                      "the operation in flight is applied entirely or not at all (SQLite rollback journal atomic commit)",
+                      {"journal_mode": mode, "why": "without an on-disk rollback journal a transaction that spilled to the file cannot be undone after a crash"},
+                      {"trusted_base": True})
+    ctx.bounds["journal_mode"] = mode
+    ctx.bounds["isolation_level"] = repr(iso)
+
+
 def run(ctx):
     CFG["T"], CFG["S"] = POOL[ctx.seed % len(POOL)]
+    check_trusted_base(ctx)
     alpha = alphabet(ctx.quick)
     L = 3
     seqs = []
@@ -372,6 +396,9 @@ def run(ctx):
 
 
 def replay(ctx, rep):
+    if rep.get("trusted_base"):
+        check_trusted_base(ctx)
+        return list(ctx.violations.values())
     CFG["T"], CFG["S"] = rep.get("T", "T"), rep.get("S", "S")
     ops = [tuple(o) for o in rep["ops"]]
     out = []
